@@ -66,7 +66,7 @@ def measure_prefill(T: int) -> int:
     return n
 
 
-def run_free(*, T, N, fails=(), abandon=None, rounds=1, jitter_seed=None, watchdog=30.0) -> Exec:
+def run_free(*, T, N, fails=(), abandon=None, rounds=1, jitter_seed=None, watchdog=30.0, stall=None) -> Exec:
     """Free-running execution (OS scheduling), logged at the linearization points."""
     ex = Exec()
     ctl = LS.Controller(scheduled=False)
@@ -84,7 +84,7 @@ def run_free(*, T, N, fails=(), abandon=None, rounds=1, jitter_seed=None, watchd
         def body():
             try:
                 LS.run_pool(ctl, T=T, N=N, fails=fails, abandon_after=abandon, rounds=rounds, jitter=jitter,
-                            result=ex.result)
+                            result=ex.result, stall=stall)
             finally:
                 ctl.thread_done("c", "exit")
 
